@@ -8,8 +8,9 @@ CONSTANTS
   DevMode = TRUE
   MaxVer = 2
   Scratch = FALSE
+  DestKinds <- PlainOnly
   Bug = "none"
 INIT Init
 NEXT Next
-INVARIANTS TypeOK ExclusiveBuffer Isolated MutexProtectsCache LiteralsAreAVersion UniqueIds
+INVARIANTS TypeOK ExclusiveBuffer Isolated OwnDestinationOnly MutexProtectsCache LiteralsAreAVersion UniqueIds
 CHECK_DEADLOCK FALSE
